@@ -102,7 +102,7 @@ func checkC20(c *Ctx) {
 }
 
 func (c *Ctx) signerSequence(i int, rng *rand.Rand) {
-	dir := c.Dir(fmt.Sprintf("c20-%d", i))
+	dir := c.DirI(i, fmt.Sprintf("c20-%d", i))
 	defer os.RemoveAll(dir)
 	keyFile, stFile := filepath.Join(dir, "key.json"), filepath.Join(dir, "state.json")
 	chainID := "c20-chain"
